@@ -122,6 +122,7 @@ class ScriptedBackend(TrialBackend):
         self.ckpt: Dict[int, str] = {}
         self.log_vals = False
         self.linger = False
+        self.extra_metrics = None
 
     # ---- environment
     def _observe(self):
@@ -143,6 +144,8 @@ class ScriptedBackend(TrialBackend):
                 self.clock += 1
                 self.metrics[t].append({"m": self.values(t, r, i), "epoch": i, "run": r, "idx": i,
                                         ST_WORKER_TIMESTAMP: self.clock})
+                if self.extra_metrics is not None:      # further metrics derived from the first one (C17)
+                    self.metrics[t][-1].update(self.extra_metrics(self.metrics[t][-1]["m"]))
                 if self.log_vals:   # campaigns with value / cost criteria: cumulative cost (t + 1) * position
                     self.metrics[t][-1][ST_WORKER_COST] = float((t + 1) * len(self.metrics[t]))
                 self.ckpt[t] = "present"
@@ -460,6 +463,8 @@ def run_tuner(conf: dict, script: Script, scheduler=None, stop_criterion=None, v
         backend = ScriptedBackend(script, log, values=values, delete_checkpoints=bool(conf.get("del", False)))
         backend.log_vals = conf.get("ckind") in ("minmetric", "maxmetric", "cost", "minmax")
         backend.linger = bool(conf.get("linger", False))
+        if conf.get("m2"):      # a second metric, in reverse order of the first one
+            backend.extra_metrics = lambda m: {"m2": 12.0 - m}
     sched = scheduler if scheduler is not None else ScriptedScheduler(script, conf.get("kind", "stop"))
     instrument_scheduler(sched, log)
     crit = stop_criterion if stop_criterion is not None else ScriptedCriterion(script)
@@ -485,7 +490,8 @@ def run_tuner(conf: dict, script: Script, scheduler=None, stop_criterion=None, v
 
     tuner._stop_condition = stop_condition
     kind, named, msg = "normal", -1, ""
-    with contextlib.redirect_stdout(io.StringIO()):
+    printed = io.StringIO()
+    with contextlib.redirect_stdout(printed):
         try:
             tuner.run()
         except ValueError as e:
@@ -512,7 +518,7 @@ def run_tuner(conf: dict, script: Script, scheduler=None, stop_criterion=None, v
     cnt = [] if ts is None else [ts.num_trials_started, ts.num_trials_completed, ts.num_trials_failed,
                                  ts.num_trials_finished]
     log.append({"a": "End", "kind": kind, "named": named, "cnt": cnt, "msg": msg[:200]})
-    out = {"conf": conf, "ev": log, "tuner": tuner, "backend": backend, "store": store}
+    out = {"conf": conf, "ev": log, "tuner": tuner, "backend": backend, "store": store, "stdout": printed.getvalue()}
     if not keep_dir:
         shutil.rmtree(experiment_path(tuner_name=name), ignore_errors=True)
     return out
